@@ -83,6 +83,12 @@ impl From<Amount> for AttoTokens {
     }
 }
 
+/// Whether the string is a non-empty sequence of ASCII decimal digits. The underlying integer parser
+/// would also accept radix prefixes (`0x`, `0o`, `0b`), `_` separators and the empty string.
+fn is_decimal_digits(s: &str) -> bool {
+    !s.is_empty() && s.bytes().all(|b| b.is_ascii_digit())
+}
+
 impl FromStr for AttoTokens {
     type Err = EvmError;
 
@@ -91,6 +97,7 @@ impl FromStr for AttoTokens {
         let converted_units = {
             let units = itr
                 .next()
+                .filter(|s| is_decimal_digits(s))
                 .and_then(|s| s.parse::<Amount>().ok())
                 .ok_or_else(|| {
                     EvmError::FailedToParseAttoToken("Can't parse token units".to_string())
@@ -106,6 +113,10 @@ impl FromStr for AttoTokens {
 
             if remainder_str.is_empty() {
                 Amount::ZERO
+            } else if !is_decimal_digits(remainder_str) {
+                return Err(EvmError::FailedToParseAttoToken(
+                    "Can't parse token remainder".to_string(),
+                ));
             } else {
                 let parsed_remainder = remainder_str.parse::<Amount>().map_err(|_| {
                     EvmError::FailedToParseAttoToken("Can't parse token remainder".to_string())
@@ -118,7 +129,10 @@ impl FromStr for AttoTokens {
             }
         };
 
-        Ok(Self(converted_units + remainder))
+        converted_units
+            .checked_add(remainder)
+            .map(Self)
+            .ok_or(EvmError::ExcessiveValue)
     }
 }
 
@@ -126,7 +140,7 @@ impl Display for AttoTokens {
     fn fmt(&self, formatter: &mut Formatter) -> fmt::Result {
         let unit = self.0 / Amount::from(TOKEN_TO_RAW_CONVERSION);
         let remainder = self.0 % Amount::from(TOKEN_TO_RAW_CONVERSION);
-        write!(formatter, "{unit}.{remainder:09}")
+        write!(formatter, "{unit}.{remainder:018}")
     }
 }
 
